@@ -373,3 +373,7 @@ fn parse_scion_addr<T: FromStr>(
     let host = host_str.parse::<T>().map_err(|_| err_type)?;
     Ok((isd_asn, host))
 }
+
+#[cfg(kani)]
+#[path = "/verif/kani/sciparse/text_addr.rs"]
+mod verif_text_addr;
